@@ -1,4 +1,4 @@
-import IncrVerif.Proofs.ExpertH65
+import IncrVerif.Proofs.ExpertH70
 import IncrVerif.Proofs.ExpertH54
 /-!
 # C14 for whole histories — expert nodes with dynamically added dependencies (fragment X1)
@@ -87,10 +87,21 @@ flag is down OR that is not stale is `Good`.
   ("cbsum") sees exactly the current values of its callback dependencies.
 * Outside recomputes a slot changes only by a delivery of the current value of the child of the dependency it is named
   after, and only on a record whose flag is down (`ExpertH.SR`, ladder `PresR.*`).
-* NOT PROVED for E2: (i) "cbsum" closures as node functions in whole histories (the VALUE theorem above is for closures
-  that ignore the slots; with `SlotInv` in the drain invariant the same proof would go through for experts all of whose
-  dependencies have callbacks — not done); (ii) EXACTNESS of the callback events on the log — and as literally stated
-  it is FALSE, see FINDINGS.
+* FRAGMENT X2 (`Proofs/ExpertH66…70`) = X1 + closures that READ THE SLOTS ("cbsum": `ExpertH.XEnvCb env f` — applied to slots that are the
+  dependency values, `f` is the sum modulo m; `toEnv_cbsum`: the harness' `expert cbsum m`, `f = 10 * m + 1`), for expert
+  nodes ALL of whose dependencies are added with a callback (`ExpertH.XActionOK2`: `addDep … nocb` only on nodes whose
+  closure does not read the slots; invariant `ExpertH.CbInv`).  `ExpertH.envS env`: the environment in which every
+  closure gets the dependency values in place of the slots.  `runs_agree` (`stabilise_agrees`, `ExpertH.recomputeOne_eq`,
+  `drainHeap_eq`, `step_eq`): under the callback discipline the engine behaves IDENTICALLY under `env` and `envS env` —
+  at every recompute of an expert node the slots of its callback edges ARE the dependency values (`readyRec_good`) —, so
+  `history_every_stabilise_x2`: at every `stabilise` of a history of X2 run under the ACTUAL `env`, every in-use observer
+  reads `evalX` (a "cbsum" node: the sum of the current values of its current dependencies), all callback slots of
+  necessary expert nodes are current, and the invariants hold (for `envS env`).  Non-vacuity: `exHistC` (a `cbsum` expert
+  that is unobserved and re-observed — finding F-a —, gets a third dependency while observed; a `sumdeps` expert with a
+  `cb` and a `nocb` edge on the same child).
+* NOT PROVED for E2: "cbsum" experts with a MIX of callback and non-callback dependencies (their value is the sum over
+  the callback dependencies only; the virtual `fold` node cannot express a positional mask); EXACTNESS of the callback
+  events on the log — as literally stated it is FALSE, see FINDINGS.
 
 E3 — DEPENDENCIES EDITED FROM INSIDE NODE FUNCTIONS (`Proofs/ExpertH54.lean`, pure logic over explicit invariants, as
 `Props/C03Order.lean` did for binds with `StepL`).  `Drv.StepD env X n v ch r s s'`: the contract of a DRIVER step —
@@ -297,6 +308,46 @@ theorem history_every_stabilise_slots {env : Env} {N : Nat} {d : Bool} {as bs : 
       runActions env bs s2 tk1 = .ok (s, tk) :=
   history_stabilise_slots ha h
 
+/-! ## E2, fragment X2: closures that read the slots -/
+
+/-- the harness' closure `expert cbsum m` (`f = 10 * m + 1`), on slots that are the dependency values -/
+theorem toEnv_cbsum (d : Defs) (f : Nat) (h : f % 10 = 1) : XEnvCb d.toEnv f := toEnv_xEnvCb d f h
+
+/-- under `envS env` every such closure is a "sum of the dependencies" closure of fragment X1 -/
+theorem envS_closure {env : Env} {f : Nat} (h : XEnvCb env f) : XEnvOK (envS env) f := xEnvOK_envS h
+
+/-- **`stabilise` behaves identically under `env` and `envS env`** (same result, same final state, also when it panics) -/
+theorem stabilise_agrees {env : Env} {rk : Nat → Nat} {fuel : Nat} {s : State} (Q : QInvX (envS env) rk s)
+    (L : SlotInv (envS env) s) (C : CbInv env s) :
+    (stabilise env fuel).run.run s = (stabilise (envS env) fuel).run.run s := stabilise_eq Q L C
+
+/-- **whole runs of fragment X2 behave identically under `env` and `envS env`**, and are runs of fragment X1 under
+`envS env` -/
+theorem runs_agree {env : Env} {rk : Nat → Nat} {acts : List Action} {s : State} {tk : Array Nat}
+    (Q : QInvX (envS env) rk s) (L : SlotInv (envS env) s) (C : CbInv env s) (ha : RunOK2 env acts s tk) :
+    runActions env acts s tk = runActions (envS env) acts s tk ∧ RunOK (envS env) acts s tk :=
+  ⟨(run_eq Q L C ha).1, (run_eq Q L C ha).2.1⟩
+
+/-- **C14 (value clause and callback discipline) for whole histories of fragment X2.** -/
+theorem history_every_stabilise_x2 {env : Env} {N : Nat} {d : Bool} {as bs : List Action} {s : State}
+    {tk : Array Nat} (ha : RunOK2 env (as ++ Action.stabilise :: bs) (State.init N d) #[])
+    (h : runActions env (as ++ Action.stabilise :: bs) (State.init N d) #[] = .ok (s, tk)) :
+    ∃ s1 tk1 s2 rk1, runActions env as (State.init N d) #[] = .ok (s1, tk1) ∧ QInvX (envS env) rk1 s1 ∧
+      SlotInv (envS env) s1 ∧ CbInv env s1 ∧
+      (stabilise env fuelDefault).run.run s1 = (.ok (), s2) ∧ StabilisedX (envS env) rk1 fuelDefault s1 s2 ∧
+      SlotInv (envS env) s2 ∧ SlotsCurrent env s2 ∧ ReadsOKX env s2 ∧
+      runActions env bs s2 tk1 = .ok (s, tk) :=
+  history_stabilise_x2 ha h
+
+/-- a decidable sufficient check of `RunOK2` (`xOK f`: closure usable in expert nodes; `sOK f`: it does not read the
+slots) -/
+theorem runOK2_of_check {env : Env} {mapOK xOK sOK : Nat → Bool}
+    (hm : ∀ f, mapOK f = true → f < fnPerKey ∧ (f < fnZip → ∀ vals, env.fnEff f vals = []))
+    (hx : ∀ f, xOK f = true → XEnvCb env f ∧ f < xBase) (hs : ∀ f, sOK f = true → XEnvOK env f)
+    {acts : List Action} {s : State} {tk : Array Nat}
+    (h : runOKB2 env mapOK xOK sOK acts s tk = true) : RunOK2 env acts s tk :=
+  runOKB2_sound hm hx hs acts s tk h
+
 /-! ## E3: driver steps (pure logic over explicit invariants) -/
 
 /-- **a driver step keeps the drain invariant** (graph changing during the drain) -/
@@ -461,5 +512,65 @@ theorem exHistX_slots : ∃ s tk rk, runActions exEnvX exHistX (State.init 128 t
   obtain ⟨s, tk, rk, h, -⟩ := exHistX_inv
   obtain ⟨rk', Q, L⟩ := slots_history exHistX_ok h
   exact ⟨s, tk, rk', h, Q, L⟩
+
+/-! ### fragment X2 -/
+
+theorem foldl_zip_un (un : Option Val → Int) (hun : ∀ v, un (some v) = v.toInt) (vals : List Val) (a : Int) :
+    (((vals.map some).zip (vals.map some)).foldl (fun a (so : Option Val × Option Val) => a + un so.1) a) =
+      (vals.map Val.toInt).foldl (· + ·) a := by
+  induction vals generalizing a with
+  | nil => rfl
+  | cons v vs ih => simp only [List.map_cons, List.zip_cons_cons, List.foldl_cons, hun]; exact ih _
+
+theorem exEnvX_cbsum (f : Nat) (h : f % 10 = 1) : XEnvCb exEnvX f := by
+  intro vals
+  rw [foldl_xStep]
+  show (if (f % 10 == 0) = true then _ else _) = _
+  rw [if_neg (by simp [h])]
+  have e2 : ((f : Int) / 10) = ((f / 10 : Nat) : Int) := by omega
+  have key := foldl_zip_un (fun o => match o with | some v => v.toInt | none => 0) (fun _ => rfl) vals 0
+  rw [e2]
+  exact congrArg (fun x => Val.int (emod x ((f / 10 : Nat) : Int))) key
+
+/-- `var 2; var 3; expert cbsum 7; adddep n2 n0 cb; adddep n2 n1 cb; observe n2; stabilise; disallow o0; stabilise;
+observe n2; stabilise` (re-observed, not stale, not recomputed: the fire-all flag stays up — finding F-a) `; set v0 3;
+stabilise; map f0 n0; adddep n2 n3 cb; stabilise; set v0 4; set v1 0; stabilise; expert sumdeps 7; adddep n4 n2 cb;
+adddep n4 n2 nocb; observe n4; stabilise; set v1 6; stabilise` -/
+def exHistC : List Action :=
+  [.create (.var (.int 2)), .create (.var (.int 3)), .create (.expert 71),
+   .addDep (.outer 2) (.outer 0) true, .addDep (.outer 2) (.outer 1) true, .observe (.outer 2), .stabilise,
+   .disallow 0, .stabilise, .observe (.outer 2), .stabilise, .set 0 (.int 3), .stabilise,
+   .create (.map 0 [.outer 0]), .addDep (.outer 2) (.outer 3) true, .stabilise, .set 0 (.int 4), .set 1 (.int 0),
+   .stabilise, .create (.expert 70), .addDep (.outer 4) (.outer 2) true, .addDep (.outer 4) (.outer 2) false,
+   .observe (.outer 4), .stabilise, .set 1 (.int 6), .stabilise]
+
+set_option maxRecDepth 100000 in
+theorem exHistC_ok : RunOK2 exEnvX exHistC (State.init 128 true) #[] :=
+  runOK2_of_check (mapOK := fun f => decide (f < 2)) (xOK := fun f => f == 70 || f == 71) (sOK := fun f => f == 70)
+    (fun f hf => by
+      have : f < 2 := by simpa using hf
+      exact ⟨by unfold fnPerKey; omega, fun _ _ => rfl⟩)
+    (fun f hf => by
+      have : f = 70 ∨ f = 71 := by simpa using hf
+      rcases this with rfl | rfl
+      · exact ⟨xEnvCb_of_ok (exEnvX_sumdeps 70 (by decide)), by decide⟩
+      · exact ⟨exEnvX_cbsum 71 (by decide), by decide⟩)
+    (fun f hf => by
+      have : f = 70 := by simpa using hf
+      subst this
+      exact exEnvX_sumdeps 70 (by decide))
+    (by decide +kernel)
+
+set_option maxRecDepth 100000 in
+/-- the reads of the observers of the `cbsum` node `n2` (`o0`, then `o1`) and of the `sumdeps` node `n4` (`o2`, two edges
+on `n2`): `2 + 3`; after re-observing, `3 + 3`; with `f0(3) = 4`: `10 mod 7 = 3`; `4 + 0 + 5 = 9 mod 7 = 2`, `n4 = 2 + 2`;
+`4 + 6 + 5 = 15 mod 7 = 1`, `n4 = 2` -/
+example : readAfter exEnvX (exHistC.take 7) 0 = some (.int 5) ∧ readAfter exEnvX (exHistC.take 13) 1 = some (.int 6) ∧
+    readAfter exEnvX (exHistC.take 16) 1 = some (.int 3) ∧ readAfter exEnvX (exHistC.take 24) 1 = some (.int 2) ∧
+    readAfter exEnvX (exHistC.take 24) 2 = some (.int 4) ∧ readAfter exEnvX exHistC 1 = some (.int 1) ∧
+    readAfter exEnvX exHistC 2 = some (.int 2) ∧
+    slotsAfter exEnvX exHistC 0 = [(1, .int 6), (2, .int 5), (0, .int 4)] :=
+  ⟨by decide +kernel, by decide +kernel, by decide +kernel, by decide +kernel, by decide +kernel, by decide +kernel,
+    by decide +kernel, by decide +kernel⟩
 
 end IncrVerif.Props.C14History
